@@ -219,6 +219,11 @@ def _subchecks(hist, st, acc, parser):
                         acc.fail("label-named-like-typedef:substatement:" + r[0],
                                  {"text": text, "depth": d, "probe": pid, "name": name, "typedef": True,
                                   "history": [list(e) for e in hist], "kind": "label-sub"}, r[1])
+        # (S4) a block nested inside braces that are not a scope (initializer
+        # list, struct body): what it declares ends with it, the name is a type
+        # again for the rest of those braces
+        if td and S.in_function(st):
+            _nested_block_in_braces_check(hist, st, name, d, acc, parser)
         # (S3) enumerators: visible after their own enumerator, not inside it
         if td and S.apply(st, ("enum", name)) is not None:
             _enum_self_check(hist, st, name, d, acc, parser)
@@ -252,6 +257,38 @@ def _label_substatement_forms(name):
          _N("Switch", INT(1), _N("Compound", (_N("Case", INT(1), (lab,)),)))),
         ("label-after-label", "lab9 : " + l, _N("Label", "lab9", lab)),
     )
+
+
+def _nested_block_in_braces_check(hist, st, name, d, acc, parser):
+    from models.stmt_model import N as _N
+
+    tn = _N("Typename", None, (), None, _N("TypeDecl", None, (), None, _N("IdentifierType", (name,))))
+    forms = (
+        ("init", "int z9 [ ] = { ( { int %s ; 1 ; } ) , sizeof ( %s ) } ;" % (name, name),
+         lambda node: core.canon(node.init.exprs[1]), _N("UnaryOp", "sizeof", tn)),
+        ("struct", "struct Q9 { int m [ ( { int %s ; 2 ; } ) ] ; %s * p ; } ;" % (name, name),
+         lambda node: core.canon(node.type.decls[1].type.type.type), _N("IdentifierType", (name,))),
+        ("enum", "enum { K9 = ( { int %s ; 3 ; } ) , L9 = sizeof ( %s ) } ;" % (name, name),
+         lambda node: core.canon(node.type.values.enumerators[1].value), _N("UnaryOp", "sizeof", tn)),
+    )
+    for pid, probe, pick, want in forms:
+        text = S.program(hist, st, probe)
+        acc.add("programs")
+        acc.add("sub_nested_block_probes")
+        out = core.parse_outcome(text, parser=parser)
+        case = {"text": text, "depth": d, "probe": "nested-block-in-" + pid, "name": name, "typedef": True,
+                "history": [list(e) for e in hist], "kind": "nested-block"}
+        if out[0] != "ok":
+            acc.fail("block-inside-non-scope-braces:" + ("reject" if out[0] == "perr" else "exc"), case, str(out[1:])[:150])
+            continue
+        try:
+            got = pick(_probe_node(out[1], d))
+        except Exception as e:  # noqa
+            acc.fail("block-inside-non-scope-braces:shape", case, repr(e)[:100])
+            continue
+        if got != want:
+            acc.fail("block-inside-non-scope-braces:name-still-hidden-after-the-block", case,
+                     "expected %s got %s" % (_cls(want), _cls(got)))
 
 
 def _enum_self_check(hist, st, name, d, acc, parser):
